@@ -30,6 +30,87 @@ func init() {
 		vpkg + "Symbolic": func(fr *frame, args []value) value { return true },
 		vpkg + "Note":     extVNote,
 		vpkg + "Concrete": extVConcrete,
+		vpkg + "InstallTape": func(fr *frame, args []value) value { return nil },
+		vpkg + "Draws": func(fr *frame, args []value) value {
+			cl := fr.i.eng.clog()
+			out := make([]value, len(cl.draws))
+			for k, d := range cl.draws {
+				out[k] = cloneVals(d)
+			}
+			return out
+		},
+		vpkg + "WeakDraws": func(fr *frame, args []value) value { return len(fr.i.eng.clog().weak) },
+		vpkg + "SealKeys": func(fr *frame, args []value) value {
+			cl := fr.i.eng.clog()
+			out := make([]value, len(cl.seals))
+			for k, d := range cl.seals {
+				out[k] = cloneVals(d.key)
+			}
+			return out
+		},
+		vpkg + "SealNonces": func(fr *frame, args []value) value {
+			cl := fr.i.eng.clog()
+			out := make([]value, len(cl.seals))
+			for k, d := range cl.seals {
+				out[k] = cloneVals(d.nonce)
+			}
+			return out
+		},
+		vpkg + "BaseScalars": func(fr *frame, args []value) value {
+			cl := fr.i.eng.clog()
+			var out []value
+			for _, d := range cl.dhs {
+				if d.base == 0 && len(d.scalars) == 1 {
+					out = append(out, cloneVals(d.scalars[0]))
+				}
+			}
+			return out
+		},
+		vpkg + "ScryptSalts": func(fr *frame, args []value) value {
+			cl := fr.i.eng.clog()
+			var out []value
+			for _, k := range cl.kdfs {
+				if k.kind == "scrypt" {
+					out = append(out, cloneVals(k.in[1]))
+				}
+			}
+			return out
+		},
+		vpkg + "ScryptWork": func(fr *frame, args []value) value {
+			cl := fr.i.eng.clog()
+			out := make([]value, len(cl.scryptN))
+			for k, n := range cl.scryptN {
+				out[k] = int(n)
+			}
+			return out
+		},
+		// Same(a, b): the two byte strings are the same value by construction
+		// (identical terms), not merely possibly equal.
+		vpkg + "Same": func(fr *frame, args []value) value {
+			a, _ := args[0].([]value)
+			b, _ := args[1].([]value)
+			return sameTerms(fr.i, a, b)
+		},
+		// DependsOn(x, y): some byte of x has a byte of y in its support.
+		vpkg + "DependsOn": func(fr *frame, args []value) value {
+			a, _ := args[0].([]value)
+			b, _ := args[1].([]value)
+			st := fr.i.eng.st
+			sup := map[int]bool{}
+			for _, y := range b {
+				for _, v := range st.VarsOf(fr.i.termOf(y)) {
+					sup[v] = true
+				}
+			}
+			for _, x := range a {
+				for _, v := range st.VarsOf(fr.i.termOf(x)) {
+					if sup[v] {
+						return true
+					}
+				}
+			}
+			return false
+		},
 		vpkg + "Attacker": func(fr *frame, args []value) value {
 			e := fr.i.eng
 			name := argString(fr, args[0], "name")
